@@ -16,6 +16,7 @@ unknown). `x0.stop` at a chosen time or never; optionally `x0.destroy` after the
 Each scenario carries `# tag:` lines naming the request / timing classes it exercises; the
 monitor does not read them (they are for coverage accounting and known-finding attribution).
 """
+import os
 import random
 
 CLIENT4, PROXY4, ORIG4, ORIGB4 = "10.0.0.1", "10.0.0.2", "10.0.0.3", "10.0.0.4"
@@ -150,18 +151,19 @@ def cut(rng, data, n):
 # random scenarios
 
 HOSTS_OK = ["origin.test", "www.example.com", "v6.test"]
+BODY3000 = b"HTTP/1.1 200 OK\r\ncontent-length: 2959\r\n\r\n" + bytes((i * 7 + i // 251) % 256 for i in range(2959))
 
 
-def rand_target(rng, s):
-    """an absolute-form request target + the tags it deserves"""
+def rand_target(rng, s, lport=8080):
+    """an absolute-form request target + the tags it deserves; lport = the port this scenario's origins listen on"""
     kind = rng.choice(["lit4", "lit4", "name", "name", "lit6p", "lit6", "unknown", "nxdomain", "empty", "refused4", "absent4", "nameB"])
     explicit = rng.random() < 0.6
     path = rng.choice([b"/", b"/a", b"/a/b?c=d", b"/x/../y", b"", b"/index.html?q=http://z:1/"])
-    port = 8080 if explicit else 80
+    port = lport if explicit else 80
     if kind == "lit4": auth = ORIG4
     elif kind == "name": auth = "origin.test"
     elif kind == "nameB": auth = "www.example.com"
-    elif kind == "lit6p": auth = "[%s]" % ORIG6; explicit = True; port = 8080
+    elif kind == "lit6p": auth = "[%s]" % ORIG6; explicit = True; port = lport
     elif kind == "lit6": auth = "[%s]" % ORIG6; explicit = False; port = 80
     elif kind == "unknown": auth = "unknown.test"
     elif kind == "nxdomain": auth = "nx.test"
@@ -193,6 +195,21 @@ def rand_bad(rng):
     ])
 
 
+# `http://` targets whose authority names no valid host:port. rand_bad_auth adds a port above 65535 that is
+# congruent modulo 65536 to the port the scenario's origins listen on (F43: the library used to truncate the
+# number and relay to that listener; since 99bb698 a port that does not fit 16 bits is a malformed request).
+# `http://:8080/`: the real make_address rejects ":8080" and the proxy looks that "name" up.
+BAD_AUTH = [b"http://10.0.0.3:65536/", b"http://10.0.0.3:99999/a", b"http://10.0.0.3:abc/", b"http://10.0.0.3:/", b"http://origin.test:/x",
+            b"http:///x", b"http://:8080x/", b"http://:8080/", b"http://origin.test:65536/", b"http://[2001:db8::3]:65536/"]
+
+
+def rand_bad_auth(rng, lport=8080):
+    pool = BAD_AUTH + [b"http://10.0.0.3:%d/secret" % (65536 + lport), b"http://origin.test:%d/" % (131072 + lport)]
+    t = rng.choice(pool)
+    hs = [(b"Host", b" " + t[7:].split(b"/")[0])] if rng.random() < 0.4 else []
+    return request(rng.choice([b"GET", b"POST"]), t, hs)
+
+
 def scenario(rng, sid, tier, clean=False):
     """clean=True: the plain classes only (no bracketed IPv6 literal without port, pipelining only
     towards a literal host with a listening origin, no malformed request after a forwarded one,
@@ -211,14 +228,17 @@ def scenario(rng, sid, tier, clean=False):
     proxy(s)
     nclients = rng.choice([1, 1, 2, 2, 3])
     resp_pool = [b"HTTP/1.1 200 OK\r\ncontent-length: 3\r\n\r\nabc", b"HTTP/1.1 404 Not Found\r\n\r\n", b"x", bytes(range(256)),
-                 b"HTTP/1.1 200 OK\r\n\r\n" + b"0123456789" * 30]
+                 b"HTTP/1.1 200 OK\r\n\r\n" + b"0123456789" * 30, BODY3000]
+    # the port the origins of this scenario listen on (explicit ports of the requests name it; 9999 = nobody)
+    lport = rng.choice([8080, 8080, 1024, 65535, 65534])
+    if lport != 8080: s.tags.append("port_%d" % lport)
     sess_len = rng.choice([200, 400, 1000]) * MS
     listening = set()
     # origins (ports below 1024 cannot be bound in the simulation: a default-port origin never exists);
     # each accepts up to `nclients` connections, one after the other, each with its own answer script
     for (node, ip, fam) in (("n2", ORIG4, "v4"), ("n2", ORIG6, "v6"), ("n3", ORIGB4, "v4")):
         if rng.random() < 0.2: continue
-        ep = "%s:8080" % ip if fam == "v4" else "[%s]:8080" % ip
+        ep = "%s:%d" % (ip, lport) if fam == "v4" else "[%s]:%d" % (ip, lport)
         listening.add(ip)
         a = s.acc()
         s.do("top", "%s.new %s" % (a, node)); s.do("top", "%s.open %s" % (a, fam))
@@ -250,7 +270,9 @@ def scenario(rng, sid, tier, clean=False):
         first_t = None; forwarded = 0; ok_early = False
         for q in range(nreq):
             if rng.random() < 0.12 and not (clean and forwarded > 0):
-                stream += rand_bad(rng); s.tags.append("malformed")
+                if rng.random() < 0.3: stream += rand_bad_auth(rng, lport); s.tags.append("bad_authority")
+                else: stream += rand_bad(rng)
+                s.tags.append("malformed")
                 if forwarded > 0: s.tags.append("malformed_after_valid")
                 if clean: break
                 continue
@@ -258,14 +280,14 @@ def scenario(rng, sid, tier, clean=False):
                 t = first_t      # same origin again
             else:
                 while True:
-                    t, kind = rand_target(rng, s)
+                    t, kind = rand_target(rng, s, lport)
                     if not (clean and kind == "lit6"): break
                 if kind == "lit6": s.tags.append("ipv6_noport")
                 if first_t is None:
                     first_t = t
                     # a second request may arrive while the first connect is in progress: fine when
                     # the host is a literal and somebody listens there
-                    ok_early = (kind == "lit4" and ORIG4 in listening and b":8080" in t) or (kind == "lit6p" and ORIG6 in listening)
+                    ok_early = (kind == "lit4" and ORIG4 in listening and (":%d" % lport).encode() in t) or (kind == "lit6p" and ORIG6 in listening)
                 elif t.split(b"/")[2] != first_t.split(b"/")[2]: s.tags.append("multi_origin")
             if forwarded >= 1 and not ok_early:
                 if clean: break
@@ -295,7 +317,156 @@ def scenario(rng, sid, tier, clean=False):
     return s.text()
 
 
+# ---------------------------------------------------------------------------------------------
+# deterministic families (the same in every run; the seed only rotates which variants the quick tier enumerates in full)
+
+DNS_STD = ["dns origin.test err=ok lat=%d ips=%s" % (5 * MS, ORIG4), "dns slow.test err=ok lat=%d ips=%s" % (50 * MS, ORIG4),
+           "dns v6.test err=ok lat=1000 ips=%s" % ORIG6]
+RESP_A = b"HTTP/1.1 200 OK\r\ncontent-length: 3\r\n\r\nabc"
+RESP_B = b"HTTP/1.1 404 Not Found\r\ncontent-length: 0\r\n\r\n"
+
+
+def fam_base(sid, auth, lport, fam="v4", mtu=None, lat=MS, bw=0, tag="fam"):
+    """world + proxy + one origin node n2 listening on `lport` (v4 or v6); returns (scn, origin ep)"""
+    s = Scn(sid); s.tags.append(tag)
+    world(s, random.Random(0), lat=lat, bw=bw, mtu=mtu, proxy_v6=(fam == "v6"))    # clients reach a proxy over its own family only
+    s.decl += DNS_STD
+    proxy(s)
+    ep = "%s:%d" % (ORIG4, lport) if fam == "v4" else "[%s]:%d" % (ORIG6, lport)
+    return s, ep
+
+
+# variants of the pipelined stream: (authority in the URIs, listening port, family, mtu, number of requests)
+CUT_VARIANTS = [
+    ("10.0.0.3:8080", 8080, "v4", None, 2),           # literal: the connect is under way when the next piece arrives
+    ("origin.test:65535", 65535, "v4", None, 2),      # name, lookup 5 ms: pieces arrive during the lookup
+    ("[2001:db8::3]:1024", 1024, "v6", 100, 2),       # bracketed literal, small MTU, client over IPv6
+    ("10.0.0.3:8080", 8080, "v4", None, 3),           # three requests
+]
+
+
+def cut_stream(auth, nreq):
+    a = auth.encode()
+    rs = [request(b"GET", b"http://" + a + b"/a", [(b"X-Foo", b" bar")]),
+          request(b"POST", b"http://" + a + b"/b?c=d", [(b"Host", b" " + a), (b"accept", b" */*")]),
+          request(b"HEAD", b"http://" + a, [])]
+    return rs[:nreq]
+
+
+def cut_scn(sid, variant, cuts, gap):
+    """the fixed pipelined stream of `variant`, cut at the byte positions `cuts`, the pieces `gap` ns apart;
+    the origin answers at 100 and 150 ms; nobody closes: origin_complete / relay_complete / served apply"""
+    auth, lport, fam, mtu, nreq = variant
+    s, ep = fam_base(sid, auth, lport, fam, mtu, tag="cut_family")
+    origin(s, "n2", ep, respond=[(100 * MS, RESP_A), (150 * MS, RESP_B)], family=fam)
+    data = b"".join(cut_stream(auth, nreq))
+    pieces = []; a = 0
+    for p in list(cuts) + [len(data)]:
+        pieces.append(data[a:p]); a = p
+    client(s, 0, pieces, [0] + [gap] * (len(pieces) - 1), family=fam)
+    s.do("top", "run")
+    return s.text()
+
+
+def fam_cuts(tier, seed):
+    out = []
+    full = range(len(CUT_VARIANTS)) if tier != "quick" else [0, 1 + seed % (len(CUT_VARIANTS) - 1)][:1]
+    for vi, v in enumerate(CUT_VARIANTS):
+        rs = cut_stream(v[0], v[4]); n = sum(len(r) for r in rs)
+        bounds = [sum(len(r) for r in rs[:k + 1]) for k in range(len(rs) - 1)]
+        near = sorted(set(p for b in bounds for p in range(b - 4, b + 5)))
+        k = 0
+        def add(cuts, gap):
+            nonlocal k
+            out.append(cut_scn("c%d_%d" % (vi, k), v, cuts, gap)); k += 1
+        # every single cut position (quick: variant 0 in full, the others around the request boundaries)
+        for p in (range(1, n) if (vi in full or tier != "quick") else near): add([p], 5 * MS)
+        # two cuts around a request boundary
+        for b in bounds:
+            for i in range(b - 4, b + 5):
+                for j in range(i + 1, b + 5):
+                    if vi == 0 or tier != "quick" or (i <= b <= j and (i + j) % 3 == seed % 3): add([i, j], 5 * MS)
+        # the piece after the boundary arrives while the connect / lookup is in progress, or at once
+        for p in near:
+            add([p], 1500000); add([p], 0)
+    return out
+
+
+BADS_LATER = [b"GET /relative HTTP/1.1\r\nHost: origin.test\r\n\r\n", b"GET https://origin.test/ HTTP/1.1\r\n\r\n", b"GARBAGE\r\n\r\n", b"\r\n\r\n",
+              b"GET  http://10.0.0.3/ HTTP/1.1\r\n\r\n", b"GET http://10.0.0.3:8080/ HTTP/1.1\r\nbroken header line\r\n\r\n", b"CONNECT 10.0.0.3:80 HTTP/1.1\r\n\r\n",
+              b"GET http://10.0.0.3:73616/b HTTP/1.1\r\n\r\n"]          # 73616 = 65536 + 8080: no port at all (F43)
+
+
+def fam_bad_later(tier):
+    """a well-formed request to a listening, answering origin, then a request the proxy must refuse:
+    in the same piece / once connected / after the answer was relayed / during the lookup; the client
+    never closes, so the close is the proxy's to make"""
+    out = []; k = 0
+    for (auth, when) in (("10.0.0.3:8080", 0), ("10.0.0.3:8080", 5 * MS), ("10.0.0.3:8080", 200 * MS), ("slow.test:8080", 10 * MS), ("origin.test:8080", 0)):
+        for bad in BADS_LATER:
+            s, ep = fam_base("m%d" % k, auth, 8080, tag="bad_later_family"); k += 1
+            origin(s, "n2", ep, respond=[(100 * MS, RESP_A)])
+            good = request(b"GET", b"http://" + auth.encode() + b"/a", [])
+            client(s, 0, [good + bad] if when == 0 else [good, bad], [0, when])
+            s.do("top", "run")
+            out.append(s.text())
+    return out
+
+
+def fam_big(tier):
+    """responses larger than a segment / than the client's read buffer / than the proxy's 64 KiB relay buffer.
+    With a far-away client (its acknowledgements take 20 ms, the origin's 1 ms) the proxy's write to the client
+    waits for window while the origin's segments pile up, so one read of the relay loop returns many segments
+    (up to the whole 64 KiB buffer)"""
+    out = []; k = 0
+    FAR = [20 * MS, MS, MS, MS]
+    combos = [(3000, 0, 48, None, 0), (3000, 0, 4096, None, 1000000), (70000, 1400, 48, None, 0), (70000, 20000, 65536, None, 0),
+              (70000, 70000, 1000, 500, 0), (70000, 20000, 65536, None, 1000000), (200000, 65536, 65536, None, 0), (70000, 1475, 4096, 1475, 50000),
+              (70000, 20000, 65536, None, 0, FAR), (200000, 65536, 48, None, 0, FAR), (20000, 20000, 5000, 500, 0, FAR), (300000, 100000, 65536, None, 1000000, FAR)]
+    if tier != "quick":
+        combos += [(t, ch, cap, mtu, bw) for t in (4097, 65536, 65537, 140000) for ch in (1400, 70000) for cap in (48, 5000, 65536) for mtu in (None, 100) for bw in (0, 1000000)
+                   if not (cap == 48 and t > 70000) and not (mtu == 100 and t > 70000)]
+        combos += [(t, ch, cap, mtu, 0, FAR) for t in (4097, 65536, 65537, 140000) for ch in (1400, 70000) for cap in (48, 65536) for mtu in (None, 500)]
+    for cb in combos:
+        (total, chunk, cap, mtu, bw), lat = cb[:5], (cb[5] if len(cb) > 5 else MS)
+        for auth in ("10.0.0.3:8080", "origin.test:8080"):
+            s, ep = fam_base("b%d" % k, auth, 8080, mtu=mtu, lat=lat, bw=bw, tag="big_response_family"); k += 1
+            sk = origin(s, "n2", ep)
+            h_acc = "h%d" % (s.nh - 1)      # origin(): h_acc, h_rd are the last two handlers
+            if chunk == 0: s.after(h_acc, 20 * MS, ["%s.send %s data=%s" % (sk, s.h(), hx(BODY3000))])
+            else: s.after(h_acc, 20 * MS, ["%s.write_loop %s stream=%d total=%d chunk=%d" % (sk, s.h(), 7 + k, total, chunk)])
+            client(s, 0, [request(b"GET", b"http://" + auth.encode() + b"/big", [])], cap=cap)
+            s.do("top", "run")
+            out.append(s.text())
+    return out
+
+
+def fam_deep(tier):
+    """many small requests pipelined while the lookup (50 ms) is in progress: they stay queued in
+    m_server_out_buffer and are written once connected. More than 64 KiB of queued origin-form
+    requests make the proxy give up and close ("pipeline too deep", http_proxy.cpp forward_request):
+    the last size does that towards the slow name (the client's composed write is aborted part-way,
+    so the monitor demands nothing of that session; model comparison and sanitizers only)."""
+    out = []
+    sizes = [(300, 0)] if tier == "quick" else [(50, 0), (300, 0), (1000, 0), (300, 100)]
+    sizes.append((80, 1000))      # 84 kB of requests in 21 ms: overflows during the 50 ms lookup, fits once connected
+    for k, (n, pad) in enumerate(sizes):
+        for auth in ("slow.test:8080", "10.0.0.3:8080"):
+            s, ep = fam_base("d%d_%s" % (k, auth[0]), auth, 8080, tag="deep_pipeline_family")
+            origin(s, "n2", ep, respond=[(300 * MS, RESP_A)])
+            hs = [(b"X-Pad", b" " + b"p" * pad)] if pad else []
+            data = b"".join(request(b"GET", b"http://" + auth.encode() + b"/%d" % i, hs) for i in range(n))
+            client(s, 0, [data])
+            s.do("top", "run")
+            out.append(s.text())
+    return out
+
+
+def families(seed, tier):
+    return fam_cuts(tier, seed) + fam_bad_later(tier) + fam_big(tier) + fam_deep(tier)
+
+
 def generate(seed, tier):
     rng = random.Random(seed * 1000003 % (2**31) + 18)
     n = 2400 if tier == "quick" else 40000
-    return [scenario(rng, "g%d" % i, tier, clean=(i % 4 == 0)) for i in range(n)]
+    return families(seed, tier) + [scenario(rng, "g%d" % i, tier, clean=(i % 4 == 0)) for i in range(n)]
